@@ -36,8 +36,8 @@ fn failing_set(c: &C03Case) -> Vec<(usize, bool)> {
     out
 }
 
-fn no_trouble(_sim: &Sim, info: &StepInfo) -> Result<(), Fail> {
-    panic_or_err(info, "C03", true)
+fn no_trouble(sim: &Sim, info: &StepInfo) -> Result<(), Fail> {
+    panic_or_err(sim, info, "C03", true)
 }
 
 /// Forms the cluster and lets it settle. Err(()) means "did not form" (discarded, counted).
